@@ -107,6 +107,9 @@ func (env *Env) lookup(name string) (Value, bool) {
 			}
 		}
 		cands := fr.named[name]
+		if name == "_it" { // hidden counter of a range-over-integer loop
+			cands = fr.named["rangeint.iter"]
+		}
 		var best *ssa.Alloc
 		for _, a := range cands {
 			if env.blk != nil && !(a.Block() == env.blk || a.Block().Dominates(env.blk)) {
